@@ -2,6 +2,7 @@ package checks
 
 import (
 	"fmt"
+	"sort"
 	"sync"
 
 	"hermesverif/internal/core"
@@ -64,6 +65,19 @@ func nitrogenProjects(c *core.Ctx, n, years int, salt int64, legumes bool, deepT
 				greenCut = true
 			}
 		}
+		midMeasure := false
+		if p.Measure != nil && i%8 == 2 {
+			// the measured profile is dated INSIDE the simulated period, a few weeks after a dressing that holds ammonium:
+			// the state is overwritten in mid-run (the counters of what was applied and what was dissolved go on)
+			b, e := p.Rotation[0].Harv, p.Cfg.End
+			fd := b + 30 + r.Intn(60)
+			p.Fert = append(p.Fert, gen.FertEv{Date: fd, Kg: 40 + r.Intn(120), Type: []string{"KAS", "AHL", "H", "ALZ"}[r.Intn(4)]})
+			sort.Slice(p.Fert, func(a, b int) bool { return p.Fert[a].Date < p.Fert[b].Date })
+			if md := fd + 12 + r.Intn(25); md < e-5 {
+				p.Measure.Date = md
+				midMeasure = true
+			}
+		}
 		if deepTill && len(p.Till) > 0 && i%3 == 0 {
 			p.Till[0].Cm = []int{45, 50, 60, 100, 200}[i%5]
 			if nl := p.Soil.Horizons[len(p.Soil.Horizons)-1].LowerDm; p.Till[0].Cm > nl*10-6 {
@@ -73,7 +87,7 @@ func nitrogenProjects(c *core.Ctx, n, years int, salt int64, legumes bool, deepT
 				}
 			}
 		}
-		p.Arms = []string{fmt.Sprintf("heavyRain=%v drain=%v shallowGW=%v legumes=%v peat=%v bare=%v wetTopsoil=%v greenCut=%v", o.HeavyRain, o.Drain, o.ShallowGW, legumes && i%2 == 0, o.Peat, o.NoCrops, o.WetTopsoil, greenCut)}
+		p.Arms = []string{fmt.Sprintf("heavyRain=%v drain=%v shallowGW=%v legumes=%v peat=%v bare=%v wetTopsoil=%v greenCut=%v midMeasure=%v", o.HeavyRain, o.Drain, o.ShallowGW, legumes && i%2 == 0, o.Peat, o.NoCrops, o.WetTopsoil, greenCut, midMeasure)}
 		ps = append(ps, p)
 	}
 	return ps
